@@ -742,6 +742,24 @@ impl Connection {
             } else {
                 // We can append/coalesce the next packet into the current
                 // datagram.
+
+                // The congestion check above only runs when a new datagram is started. If this
+                // datagram was started by a packet that isn't ack-eliciting (e.g. an Initial or
+                // Handshake ACK), ack-eliciting data coalesced behind it must still respect the
+                // congestion window.
+                if ack_eliciting && self.spaces[space_id].loss_probes == 0 {
+                    let untracked_bytes = match &builder_storage {
+                        Some(builder) => buf_capacity - builder.partial_encode.start,
+                        None => buf_capacity - buf.len(),
+                    } as u64;
+                    if self.path.in_flight.bytes + untracked_bytes >= self.path.congestion.window() {
+                        space_idx += 1;
+                        congestion_blocked = true;
+                        trace!("blocked by congestion control");
+                        continue;
+                    }
+                }
+
                 // Finish current packet without adding extra padding
                 if let Some(builder) = builder_storage.take() {
                     builder.finish_and_track(now, self, sent_frames.take(), buf);
